@@ -209,6 +209,42 @@ Fixpoint min_first (fuel : nat) (l : list (list Z * list Z)) : list (list Z * li
       end
   end.
 
+(* ---------- summaries of big reads: [count; first; last; sum; consecutive] ---------- *)
+Definition dec_summary (j : J) : option (list Z) :=
+  match j with
+  | JL [JI c; JI f; JI l; JI sm; JB consec] => Some [c; f; l; sm; if consec then 1 else 0]
+  | _ => None
+  end.
+(* the summary of the ids 0, 1, ..., n-1 in order, by arithmetic *)
+Definition summary_of_range (n : Z) : list Z :=
+  [n; if n =? 0 then -1 else 0; n - 1; n * (n - 1) / 2; 1].
+
+(* ---------- two generations of one file behind ONE source handle ----------
+   The shard ranges are computed when the source is built (generation 0); every collect reads the
+   file as it is then: partitions = the build-time ranges applied to the current content. *)
+Definition gen_ids (n g : Z) : list Z := map (fun k => 1000 * g + k) (zrange n).
+Definition gen_model (fmt n rg : Z) (per : N) (g : Z) : outcome (list Z) * outcome (list Z) :=
+  let ids0 := gen_ids n 0 in
+  let ids := gen_ids n g in
+  if fmt =? 0 then
+    let ls0 := lines (write_all tok_ser ids0) in
+    let ls := lines (write_all tok_ser ids) in
+    (match vec_split tok_de ls (build_shards ls0 per) with
+     | Some parts => Ok (List.concat parts)
+     | None => Panic
+     end,
+     match read_range tok_de ls (0%N, total_lines ls0) with Ok v => Ok v | _ => Err end)
+  else if fmt =? 1 then
+    (Ok (List.concat (map (rows_read_range ids) (ranges (nlen ids0) per))),
+     Ok (rows_read_range ids (0%N, nlen ids0)))
+  else
+    let rgsz := if rg =? 0 then 1048576%N else Z.to_N rg in
+    let groups0 := map (slice ids0) (ranges (nlen ids0) rgsz) in
+    let groups := map (slice ids) (ranges (nlen ids) rgsz) in
+    let rs := group_ranges (nlen groups0) per in
+    (Ok (List.concat (map (pq_read groups) rs)),
+     Ok (pq_read groups (0%N, match rev rs with r :: _ => snd r | [] => 0%N end))).
+
 (* ---------- the check ---------- *)
 Definition all_true (l : list bool) : bool := forallb (fun b => b) l.
 
@@ -470,13 +506,66 @@ Definition check_main (kind : string) (input output : J) : verdict :=
         end
     | _, _ => malformed
     end
+  else if String.eqb kind "big" then
+    (* [fmt; n; rg; per; t; p]: n tiny records; the ranges are the model's, the content of every
+       read path is ids 0..n-1 (c09_streamed_eq_whole_rows / _parquet), compared through summaries
+       computed by arithmetic *)
+    match input, output with
+    | JL [JI fmt; JI n; JI rg; JI per; JI _; JI _],
+      JL [tag; JL [JI total; jranges; jw; js; jq]] =>
+        match dec_ranges jranges, dec_read dec_summary jw, dec_read dec_summary js, dec_read dec_summary jq with
+        | Some oranges, Some ow, Some os, Some oq =>
+            let per := Z.to_N per in
+            let nn := Z.to_N n in
+            let rgsz := if rg =? 0 then 1048576%N else Z.to_N rg in
+            let units := if fmt =? 2 then (if n =? 0 then 0%N else div_ceil nn rgsz) else nn in
+            let mranges := if fmt =? 2 then group_ranges units per else ranges units per in
+            let want := Ok (summary_of_range n) in
+            let same := outcome_eqb zlist_eqb ow want && outcome_eqb zlist_eqb os want
+                        && outcome_eqb zlist_eqb oq want in
+            ok_verdict (jtag_is "ok" tag && (total =? n) && ranges_eqb oranges mranges && same)
+                       ((total =? n)
+                        && tiles_ref oranges (match rev oranges with r :: _ => snd r | [] => 0%N end) per
+                        && same)
+        | _, _, _, _ => malformed
+        end
+    | _, _ => malformed
+    end
+  else if String.eqb kind "gen" then
+    match input, output with
+    | JL [JI fmt; JB _; JI n; JI rg; JI per; JI _; JI _; JI _; JI _; JI _], JL [tag; JL gens] =>
+        let judge_gen (g : Z) (j : J) : option (bool * bool) :=
+          match j with
+          | JL [jw; jp; js; JB pay] =>
+              match dec_read jints jw, dec_read jints jp, dec_read jints js with
+              | Some ow, Some op, Some os =>
+                  let '(mp, ms) := gen_model fmt n rg (Z.to_N per) g in
+                  let cur := Ok (gen_ids n g) in
+                  Some (pay && outcome_eqb zlist_eqb ow cur && outcome_eqb zlist_eqb op mp
+                        && outcome_eqb zlist_eqb os ms,
+                        pay && outcome_eqb zlist_eqb ow cur && outcome_eqb zlist_eqb op cur
+                        && outcome_eqb zlist_eqb os cur)
+              | _, _, _ => None
+              end
+          | _ => None
+          end in
+        match gens with
+        | [g0; g1] =>
+            match judge_gen 0 g0, judge_gen 1 g1 with
+            | Some (a0, p0), Some (a1, p1) => ok_verdict (jtag_is "ok" tag && a0 && a1) (p0 && p1)
+            | _, _ => malformed
+            end
+        | _ => malformed
+        end
+    | _, _ => malformed
+    end
   else malformed.
 
 (* a panic of the code under test (or an Err where the harness unwraps) in a place where the model
    has no failure at all is a disagreement and a failed property instance, not a malformed case *)
 Definition is_panic (o : J) : bool := match o with JL [t] => jtag_is "panic" t | _ => false end.
 Definition known_kind (k : string) : bool :=
-  existsb (String.eqb k) ["jl"; "js"; "jw"; "cw"; "cs"; "ps"; "gl"; "jf"; "jb"; "jz"; "cz"; "ow"]%string.
+  existsb (String.eqb k) ["jl"; "js"; "jw"; "cw"; "cs"; "ps"; "gl"; "jf"; "jb"; "jz"; "cz"; "ow"; "big"; "gen"]%string.
 Definition check_C09 (kind : string) (input output : J) : verdict :=
   let v := check_main kind input output in
   if v_malformed v && is_panic output && known_kind kind then ok_verdict false false else v.
